@@ -74,35 +74,82 @@ func ruleTxTypestate(c *Ctx, r *Report, rule string) {
 		r.viol(rule, "BeginTx results bound", c.ipos(begin), "transaction or error result of BeginTx is not bound")
 		return
 	}
-	onT := func(ci ssa.CallInstruction) bool {
+	// a view: a function together with the value that is the block transaction inside it (the BeginTx result in the
+	// sync root; the parameter that receives it in a helper split off from the root)
+	type txView struct {
+		fn *ssa.Function
+		T  ssa.Value
+	}
+	isT := func(v txView, a ssa.Value) bool {
+		if a == v.T {
+			return true
+		}
+		if p, ok := v.T.(*ssa.Parameter); ok && spilledParam(a) == p {
+			return true
+		}
+		return false
+	}
+	onTv := func(v txView, ci ssa.CallInstruction) bool {
 		for _, a := range ci.Common().Args {
-			if a == T {
+			if isT(v, a) {
 				return true
 			}
 		}
 		return false
 	}
-	var commits, rollbacks []ssa.CallInstruction
-	for _, ci := range findCalls(f, "database/sql.Tx.Commit") {
-		if onT(ci) {
-			commits = append(commits, ci)
+	root := txView{f, T}
+	onT := func(ci ssa.CallInstruction) bool { return onTv(root, ci) }
+	commitsIn := func(v txView) []ssa.CallInstruction {
+		var out []ssa.CallInstruction
+		for _, ci := range findCalls(v.fn, "database/sql.Tx.Commit") {
+			if onTv(v, ci) {
+				out = append(out, ci)
+			}
 		}
+		return out
 	}
-	for _, ci := range findCalls(f, "database/sql.Tx.Rollback") {
-		if onT(ci) {
-			rollbacks = append(rollbacks, ci)
+	rollbacksIn := func(v txView) []ssa.CallInstruction {
+		var out []ssa.CallInstruction
+		for _, ci := range findCalls(v.fn, "database/sql.Tx.Rollback") {
+			if onTv(v, ci) {
+				out = append(out, ci)
+			}
 		}
+		// a helper introduced after the reference tree that always rolls back the transaction it is given
+		// stands for the Rollback at its call site
+		for _, ci := range callsOf(v.fn) {
+			sc := ci.Common().StaticCallee()
+			if sc == nil || !isNewHelper(sc) || !onTv(v, ci) {
+				continue
+			}
+			for i, a := range ci.Common().Args {
+				if isT(v, a) && mustCallOnParam(sc, i, "database/sql.Tx.Rollback") {
+					out = append(out, ci)
+				}
+			}
+		}
+		return out
 	}
-	// a helper introduced after the reference tree that always rolls back the transaction it is given
-	// stands for the Rollback at its call site
-	for _, ci := range callsOf(f) {
-		sc := ci.Common().StaticCallee()
-		if sc == nil || !isNewHelper(sc) || !onT(ci) {
-			continue
-		}
-		for i, a := range ci.Common().Args {
-			if a == T && mustCallOnParam(sc, i, "database/sql.Tx.Rollback") {
-				rollbacks = append(rollbacks, ci)
+	commits := commitsIn(root)
+	rollbacks := rollbacksIn(root)
+	// the commit phase (record the height, commit, publish) may have been split off into a helper that is given the
+	// transaction: it is then analysed in that helper, and its call stands for it in the root
+	cf := root
+	var cfSite ssa.CallInstruction
+	if len(commits) == 0 {
+		for _, ci := range callsOf(f) {
+			sc := ci.Common().StaticCallee()
+			if sc == nil || !isNewHelper(sc) || sc.Parent() != nil || !onT(ci) {
+				continue
+			}
+			for i, a := range ci.Common().Args {
+				if a != T || i >= len(sc.Params) {
+					continue
+				}
+				hv := txView{sc, sc.Params[i]}
+				if cs := commitsIn(hv); len(cs) > 0 && cfSite == nil {
+					cf, cfSite, commits = hv, ci, cs
+				}
 			}
 		}
 	}
@@ -111,11 +158,37 @@ func ruleTxTypestate(c *Ctx, r *Report, rule string) {
 		return
 	}
 	commit := commits[0]
+	cfRollbacks := rollbacks
+	if cfSite != nil {
+		cfRollbacks = rollbacksIn(cf)
+		if len(c.familyCallSites(cf.fn)) != 1 {
+			r.undecided(rule, "commit phase in a helper", c.pos(cf.fn.Pos()), fname(cf.fn)+" is called from more than one place")
+			return
+		}
+	}
+	// lift: the instruction of the root that stands for an instruction of the commit helper
+	lift := func(x ssa.Instruction) ssa.Instruction {
+		if x.Parent() == f || cfSite == nil {
+			return x
+		}
+		return cfSite
+	}
+	rollbacksOf := func(x ssa.Instruction) []ssa.CallInstruction {
+		if x.Parent() == f {
+			return rollbacks
+		}
+		return cfRollbacks
+	}
 	r.ok(rule, "one BeginTx, one Commit on its result", c.ipos(commit), fmt.Sprintf("%d rollback sites", len(rollbacks)))
 
 	// the block call and the sync-height write, both on T
 	var blockCall, syncedCall *ssa.Call
 	insertSynced := c.fn("pegnet.Pegnet.InsertSynced")
+	for _, ci := range callsOf(cf.fn) {
+		if call, ok := ci.(*ssa.Call); ok && onTv(cf, ci) && call.Call.StaticCallee() == insertSynced {
+			syncedCall = call
+		}
+	}
 	for _, ci := range callsOf(f) {
 		call, ok := ci.(*ssa.Call)
 		if !ok || !onT(ci) {
@@ -126,7 +199,7 @@ func ruleTxTypestate(c *Ctx, r *Report, rule string) {
 			continue
 		}
 		if sc == insertSynced {
-			syncedCall = call
+			// found above
 		} else if ev, _ := errValueOf(call); ev != nil && errResultIndex(sc.Signature) >= 0 {
 			// the block-applying call: takes T and a height, error result bound
 			if blockCall == nil || len(c.reach(sc)) > len(c.reach(blockCall.Call.StaticCallee())) {
@@ -140,7 +213,7 @@ func ruleTxTypestate(c *Ctx, r *Report, rule string) {
 	}
 	bname := fname(blockCall.Call.StaticCallee())
 	// (a) ordering and gating
-	r.check(instrDominates(blockCall, syncedCall), rule, "block call dominates InsertSynced", c.ipos(syncedCall), bname+" is applied before the height is recorded", "InsertSynced can execute without "+bname+" having run on this transaction")
+	r.check(instrDominates(blockCall, lift(syncedCall)), rule, "block call dominates InsertSynced", c.ipos(syncedCall), bname+" is applied before the height is recorded", "InsertSynced can execute without "+bname+" having run on this transaction")
 	r.check(instrDominates(syncedCall, commit), rule, "InsertSynced dominates Commit", c.ipos(commit), "the sync height is written inside the transaction before it is committed", "Commit can execute without the sync height having been written on the same transaction: a crash after Commit leaves the block applied but the height not advanced")
 	beginBlocks := map[*ssa.BasicBlock]bool{begin.Block(): true}
 	for _, x := range []*ssa.Call{blockCall, syncedCall} {
@@ -157,12 +230,19 @@ func ruleTxTypestate(c *Ctx, r *Report, rule string) {
 		}
 		okAll := true
 		detail := ""
+		// the commit as seen from the function the tested call sits in
+		target := ssa.Instruction(commit)
+		avoid := map[*ssa.BasicBlock]bool{}
+		if x.Parent() == f {
+			target = lift(commit)
+			avoid = beginBlocks
+		}
 		for _, t := range tests {
-			if !nilEdgeDom(t, commit.Block()) {
+			if !nilEdgeDom(t, target.Block()) {
 				okAll = false
 				detail = "Commit is not confined to the nil-error branch"
 			}
-			if reachAvoiding(t.S, beginBlocks)[commit.Block()] {
+			if reachAvoiding(t.S, avoid)[target.Block()] {
 				okAll = false
 				detail = "Commit is reachable from the error branch without a new BeginTx"
 			}
@@ -174,9 +254,23 @@ func ruleTxTypestate(c *Ctx, r *Report, rule string) {
 	if len(tests) != 1 {
 		r.viol(rule, "BeginTx error tested", c.ipos(begin), fmt.Sprintf("%d nil tests on the BeginTx error", len(tests)))
 	} else {
-		done := map[*ssa.BasicBlock]bool{commit.Block(): true}
+		done := map[*ssa.BasicBlock]bool{lift(commit).Block(): true}
 		for _, rb := range rollbacks {
 			done[rb.Block()] = true
+		}
+		if cfSite != nil {
+			// the helper closes the transaction on every path to a return
+			hd := map[*ssa.BasicBlock]bool{commit.Block(): true}
+			for _, rb := range cfRollbacks {
+				hd[rb.Block()] = true
+			}
+			open := ""
+			for b := range reachAvoiding(cf.fn.Blocks[0], hd) {
+				if _, isRet := b.Instrs[len(b.Instrs)-1].(*ssa.Return); isRet {
+					open = c.ipos(b.Instrs[len(b.Instrs)-1])
+				}
+			}
+			r.check(open == "", rule, fname(cf.fn)+" closes the transaction on every path", c.pos(cf.fn.Pos()), "every return follows Commit or Rollback", "return at "+open+" with the transaction neither committed nor rolled back")
 		}
 		reach := reachAvoiding(tests[0].N, done)
 		leak := ""
@@ -203,7 +297,7 @@ func ruleTxTypestate(c *Ctx, r *Report, rule string) {
 		}
 		for _, t := range nilTestsOf(c, ev) {
 			has := false
-			for _, rb := range rollbacks {
+			for _, rb := range rollbacksOf(x) {
 				if blockOrDom(t.S, rb.Block()) {
 					has = true
 				}
@@ -212,13 +306,38 @@ func ruleTxTypestate(c *Ctx, r *Report, rule string) {
 		}
 	}
 	// (d) height argument of the block call is load(height)+1
-	hpath := ""
+	hpath, hTP := "", ""
 	for _, a := range blockCall.Call.Args {
-		if bo, ok := a.(*ssa.BinOp); ok && bo.Op == token.ADD {
-			if k, ok := bo.Y.(*ssa.Const); ok && k.Int64() == 1 && valuePath(bo.X) != "" {
-				hpath = valuePath(bo.X)
+		for _, l := range c.originLeaves(a, map[*ssa.Function]bool{f: true}) { // through an explaining local
+			if bo, ok := l.(*ssa.BinOp); ok && bo.Op == token.ADD {
+				if k, ok := bo.Y.(*ssa.Const); ok && k.Int64() == 1 && valuePath(bo.X) != "" {
+					hpath, hTP = valuePath(bo.X), typePath(bo.X)
+				}
 			}
 		}
+	}
+	// the in-memory height location, recognised in the root and in the commit helper alike: the field by its declaring
+	// type, on an object that is not a local of the function
+	isHeightLoc := func(addr ssa.Value) bool {
+		if hTP == "" || typePath(addr) != hTP {
+			return valuePath(addr) == hpath && hpath != ""
+		}
+		rootV := addr
+		for {
+			switch y := rootV.(type) {
+			case *ssa.FieldAddr:
+				rootV = y.X
+				continue
+			case *ssa.UnOp:
+				if y.Op == token.MUL {
+					rootV = y.X
+					continue
+				}
+			}
+			break
+		}
+		_, local := rootV.(*ssa.Alloc)
+		return !local
 	}
 	if hpath == "" {
 		r.viol(rule, "block call applies height = synced+1", c.ipos(blockCall), "the height passed to "+bname+" is not <in-memory sync height>+1")
@@ -228,7 +347,7 @@ func ruleTxTypestate(c *Ctx, r *Report, rule string) {
 	r.Extra["sync_height_location"] = hpath
 	isPlusOne := func(v ssa.Value) bool {
 		bo, ok := v.(*ssa.BinOp)
-		if !ok || bo.Op != token.ADD || valuePath(bo.X) != hpath {
+		if !ok || bo.Op != token.ADD || !isHeightLoc(bo.X) {
 			return false
 		}
 		k, ok := bo.Y.(*ssa.Const)
@@ -240,14 +359,14 @@ func ruleTxTypestate(c *Ctx, r *Report, rule string) {
 		kind string // inc, dec, set
 	}
 	var pubs []pub
-	allInstrs(f, func(ins ssa.Instruction) {
+	scanPubs := func(ins ssa.Instruction) {
 		switch x := ins.(type) {
 		case *ssa.Store:
-			if valuePath(x.Addr) != hpath {
+			if !isHeightLoc(x.Addr) {
 				return
 			}
 			k := "set"
-			if bo, ok := x.Val.(*ssa.BinOp); ok && valuePath(bo.X) == hpath {
+			if bo, ok := x.Val.(*ssa.BinOp); ok && isHeightLoc(bo.X) {
 				if kk, ok := bo.Y.(*ssa.Const); ok && kk.Int64() == 1 {
 					if bo.Op == token.ADD {
 						k = "inc"
@@ -258,14 +377,18 @@ func ruleTxTypestate(c *Ctx, r *Report, rule string) {
 			}
 			pubs = append(pubs, pub{ins, k})
 		case ssa.CallInstruction:
-			if calleePkgPath(x.Common()) == "sync/atomic" && len(x.Common().Args) > 0 && valuePath(x.Common().Args[0]) == hpath {
+			if calleePkgPath(x.Common()) == "sync/atomic" && len(x.Common().Args) > 0 && isHeightLoc(x.Common().Args[0]) {
 				n := calleeName(x.Common())
 				if strings.Contains(n, "Store") || strings.Contains(n, "Add") || strings.Contains(n, "Swap") {
 					pubs = append(pubs, pub{ins, "set"})
 				}
 			}
 		}
-	})
+	}
+	allInstrs(f, scanPubs)
+	if cfSite != nil {
+		allInstrs(cf.fn, scanPubs)
+	}
 	commitTests := func() []nilTest {
 		ev, _ := errValueOf(commit)
 		if ev == nil {
@@ -294,6 +417,10 @@ func ruleTxTypestate(c *Ctx, r *Report, rule string) {
 		}
 		nAdv++
 		cons := fmt.Sprintf("in-memory height advance %s", ord(nAdv))
+		if p.ins.Parent() != commit.Parent() {
+			r.undecided(rule, cons, c.ipos(p.ins), "the height is advanced in "+fname(p.ins.Parent())+" while the transaction is committed in "+fname(commit.Parent())+": order not decided across the two")
+			continue
+		}
 		if afterCommit(p.ins) {
 			r.okNT(rule, cons, c.ipos(p.ins), hpath+" advanced only on the nil-error edge of Commit: a failed or rolled-back block never moves it")
 			continue
@@ -304,7 +431,7 @@ func ruleTxTypestate(c *Ctx, r *Report, rule string) {
 			continue
 		}
 		// advanced before Commit: must follow the block call and be compensated on every failing path
-		if !instrDominates(blockCall, p.ins) {
+		if !instrDominates(blockCall, lift(p.ins)) {
 			r.viol(rule, cons, c.ipos(p.ins), hpath+" advanced before "+bname+" has succeeded")
 			continue
 		}
@@ -337,6 +464,12 @@ func ruleTxTypestate(c *Ctx, r *Report, rule string) {
 	okBS := false
 	detail := ""
 	for _, a := range syncedCall.Call.Args {
+		if cfSite != nil {
+			// the record handed to the commit helper: judged where it is built, in the root
+			if i := ownParam(a, cf.fn); i >= 0 && i < len(cfSite.Common().Args) {
+				a = cfSite.Common().Args[i]
+			}
+		}
 		vp := valuePath(a)
 		if vp != "" && strings.HasPrefix(hpath, vp+".") {
 			// the shared object itself: an increment must dominate the call
@@ -356,7 +489,7 @@ func ruleTxTypestate(c *Ctx, r *Report, rule string) {
 						continue
 					}
 					for _, rr := range *fa.Referrers() {
-						if st, ok := rr.(*ssa.Store); ok && st.Addr == fa && isPlusOne(st.Val) && instrDominates(st, syncedCall) {
+						if st, ok := rr.(*ssa.Store); ok && st.Addr == fa && isPlusOne(st.Val) && instrDominates(st, lift(syncedCall)) {
 							okBS = true
 							detail = "a fresh record holding " + hpath + "+1"
 						}
